@@ -57,7 +57,7 @@ def run(ctx):
     cpath = os.path.join(ctx.tmp, "c13cases.ndjson")
     vf.write_ndjson(cpath, cases)
     out = os.path.join(ctx.tmp, "c13.ndjson")
-    ctx.run_vh(["script", "-cases", cpath, "-out", out, "-n", ctx.pick(400, 8000)])
+    ctx.run_vh(["script", "-cases", cpath, "-out", out, "-n", ctx.pick(400, 40000)])
     events = vf.read_ndjson(out)
     os.unlink(out)
     judge(ctx, events)
